@@ -57,8 +57,10 @@ func init() {
 		Trusted: trust("A-PS", "A-SORT", "A-STACK")})
 	add(&propSpec{ID: "C14", Level: "proof", Funcs: []string{"bexpr.evaluateCollectionExpression", "bexpr.evaluateCollectionExpression$1"},
 		Trusted: trust("A-SORT", "A-PS")})
-	add(&propSpec{ID: "C18", Level: "proof", Funcs: append([]string{"bexpr.Evaluator.Evaluate", "bexpr.getValue"}, optFuncs...),
+	add(&propSpec{ID: "C18", Level: "proof", Funcs: append([]string{"bexpr.Evaluator.Evaluate", "bexpr.getValue", "bexpr.CreateEvaluator", "bexpr.CreateFilter", "grammar.MaxExpressions"}, optFuncs...),
 		Trusted: trust("A-PS", "A-HOOK")})
+	add(&propSpec{ID: "C10", Level: "proof", Funcs: []string{"bexpr.CreateEvaluator", "bexpr.CreateFilter", "bexpr.compileRegexps", "grammar.MaxExpressions"},
+		Trusted: trust("A-ENGINE", "A-STACK", "A-REGEXP")})
 	add(&propSpec{ID: "C20", Level: "translation_validation", Extras: []string{"table:peg"}, NoBattery: true,
 		Trusted: []string{"A-GEN"}})
 	add(&propSpec{ID: "C08", Level: "proof", Funcs: []string{"bexpr.getValue", "bexpr.evaluateNotPresent", "bexpr.doMatchIsEmpty", "bexpr.doMatchEqual", "bexpr.doMatchIn", "bexpr.doMatchMatches",
